@@ -32,6 +32,9 @@ def check(run):
     nullg(run, p, kc)
     unknown(run, p)
     entry(run, p)
+    from .. import ief, triage
+    ief.run_ief(run, 'C09', [p.fn('DatasetConstraints.to_json'), p.fn('DatasetConstraints.load'), p.fn('DatasetConstraints.initialize_from_dict')], triage=triage.IEF)
+    run.floor('C09-IEF', run.units['ief_functions_checked'], 10)
     strip(run, p)
     run.trust('json.dumps / json.loads round-trip str, int, bool, None and float exactly (CPython)')
 
